@@ -29,6 +29,8 @@ Base == {
   Mapc("map:ls:0=z,2=b,8=h", "int", << <<IntV(0), SB("z")>>, <<IntV(2), SB("b")>>, <<IntV(8), SB("h")>> >>),   \* map[userLevel]string, uint8
   Mapc("map:bs:t=yes", "bool", << <<Bool(TRUE), SB("yes")>> >>),
   Mapc("map:fs:1.5=h", "float", << <<Num(96), SB("h")>> >>),
+  (* a NaN key: an entry like any other for the traversal (it can be visited, never looked up) *)
+  Mapc("map:fs:nan=x,1.5=h", "float", << <<[t |-> "num", f |-> "NaN"], SB("x")>>, <<Num(96), SB("h")>> >>),
   [id |-> "struct:person", kind |-> "struct"],
   (* a struct with embedded structs: type embOuter struct { Base; *hiddenBase; Own string } - the fields of the embedded structs are
      promoted (ID, Title from the exported Base; Code through a pointer to an unexported type) *)
